@@ -1084,4 +1084,210 @@ theorem exec_sum {st st' : State} (m : Micro) (he : exec' st m = some st') : ∃
   | aCreate a cap => exact sum_aCreate a cap he
   | aSwap a b => exact sum_aSwap a b he
 
+-- separation facts of the invariant --------------------------------------------------------------------------
+
+theorem item_not_fresh {st : State} (h : SInv st) {c : Var} {it : Item} (hi : it ∈ (st.nodes c).items)
+    (f : Nat) : ¬ ∃ b i f', st.next ≤ b ∧ it.loc f = .heap b i f' := by
+  rintro ⟨b, i, f', hb, e⟩
+  simp only [Item.loc, Loc.heap.injEq] at e
+  have := h.owns_lt (h.item_block (List.mem_append_left _ hi))
+  omega
+
+theorem item_notFreeOrFresh {st : State} (h : SInv st) {c : Var} {it : Item} (hi : it ∈ (st.nodes c).items)
+    (c0 : Var) (f : Nat) : ¬ FreeOrFresh st c0 (it.loc f) := by
+  rintro (⟨it', f', hfree, e⟩ | hfresh)
+  · obtain ⟨rfl, _⟩ := loc_inj e
+    obtain rfl := h.slot_owner (List.mem_append_left _ hi) (List.mem_append_right _ hfree)
+    exact List.disjoint_of_nodup_append (h.slots_nodup c) hi hfree
+  · exact item_not_fresh h hi f hfresh
+
+theorem item_notArrSet {st : State} (h : SInv st) {c : Var} {it : Item} (hi : it ∈ (st.nodes c).items)
+    (a : Nat) (f : Nat) : ¬ ArrSet st a (it.loc f) := by
+  rintro (⟨s, i, f', hs, e⟩ | hfresh)
+  · simp only [Item.loc, Loc.heap.injEq] at e
+    exact h.slot_not_arr (List.mem_append_left _ hi) hs e.1
+  · exact item_not_fresh h hi f hfresh
+
+theorem item_notRemoved {st : State} (h : SInv st) {c : Var} {it : Item} (hi : it ∈ (st.nodes c).items)
+    (m : Micro) (hr : ¬ m.removes st c it) (c0 : Var) (f : Nat) : ¬ Removed st m c0 (it.loc f) := by
+  rintro ⟨it', f', hi', hr', e⟩
+  obtain ⟨rfl, _⟩ := loc_inj e
+  obtain rfl := h.slot_owner (List.mem_append_left _ hi) (List.mem_append_left _ hi')
+  exact hr hr'
+
+theorem item_notSent (it : Item) (c0 : Var) (f : Nat) : ¬ SentOf c0 (it.loc f) := by
+  rintro ⟨f', e⟩; cases e
+
+/-- no object is constructed or destroyed in the slot of an item the step is not meant to remove -/
+theorem sep_cd {st : State} (h : SInv st) (m : Micro) {c : Var} {it : Item} (hi : it ∈ (st.nodes c).items)
+    (hr : ¬ m.removes st c it) (f : Nat) : ¬ cdSet st m (it.loc f) := by
+  cases m with
+  | put c0 pos k v => exact item_notFreeOrFresh h hi c0 f
+  | assignVal c0 j src => exact id
+  | remove c0 j => exact item_notRemoved h hi _ hr c0 f
+  | removeKey c0 k => exact item_notRemoved h hi _ hr c0 f
+  | removeVal c0 v => exact item_notRemoved h hi _ hr c0 f
+  | clear c0 => exact item_notRemoved h hi _ hr c0 f
+  | destroy c0 =>
+    rintro (h1 | h1)
+    · exact item_notRemoved h hi _ hr c0 f h1
+    · exact item_notSent it c0 f h1
+  | create c0 => exact item_notSent it c0 f
+  | swap c0 d0 => exact id
+  | aReserve a n => exact item_notArrSet h hi a f
+  | aPush a src => exact item_notArrSet h hi a f
+  | aTruncate a n => exact item_notArrSet h hi a f
+  | aAssign a j src => exact item_notArrSet h hi a f
+  | aRemove a j => exact item_notArrSet h hi a f
+  | aDestroy a => exact item_notArrSet h hi a f
+  | aCreate a cap => exact id
+  | aSwap a b => exact id
+
+/-- the key object of an item is never assigned -/
+theorem sep_as_key {st : State} (m : Micro) (it : Item) : ¬ asSet st m (it.loc 0) := by
+  have hv : ∀ c0, ¬ ValOf st c0 (it.loc 0) := by
+    rintro c0 ⟨it', _, e⟩
+    have := (loc_inj e).2
+    cases this
+  cases m with
+  | put c0 pos k v => exact hv c0
+  | assignVal c0 j src => exact hv c0
+  | _ => exact id
+
+theorem removes_target {st : State} {m : Micro} {c : Var} {it : Item} (hr : m.removes st c it) :
+    c ∈ m.nodeTargets := by
+  cases m with
+  | remove c0 j => rw [hr.1]; simp [Micro.nodeTargets]
+  | removeKey c0 k => rw [hr.1]; simp [Micro.nodeTargets]
+  | removeVal c0 v => rw [hr.1]; simp [Micro.nodeTargets]
+  | clear c0 =>
+    have hr : c = c0 := hr
+    rw [hr]; simp [Micro.nodeTargets]
+  | destroy c0 =>
+    have hr : c = c0 := hr
+    rw [hr]; simp [Micro.nodeTargets]
+  | _ => exact False.elim hr
+
+/-- a step assigns only to items of the container it names -/
+theorem frame_as {st : State} (h : SInv st) (m : Micro) {c : Var} {it : Item} (hi : it ∈ (st.nodes c).items)
+    (hc : c ∉ m.nodeTargets) (f : Nat) : ¬ asSet st m (it.loc f) := by
+  have hv : ∀ c0, c ≠ c0 → ¬ ValOf st c0 (it.loc f) := by
+    rintro c0 hne ⟨it', hi', e⟩
+    obtain ⟨rfl, _⟩ := loc_inj e
+    exact hne (h.slot_owner (List.mem_append_left _ hi) (List.mem_append_left _ hi'))
+  cases m with
+  | put c0 pos k v => exact hv c0 (fun e => hc (by simp [Micro.nodeTargets, e]))
+  | assignVal c0 j src => exact hv c0 (fun e => hc (by simp [Micro.nodeTargets, e]))
+  | _ => exact id
+
+-- the same for the elements of an array the step does not name
+
+theorem elem_not_fresh {st : State} (h : SInv st) {a s : Nat} (hs : (st.arrs a).store = some s) (i : Nat) :
+    ¬ ∃ b i' f', st.next ≤ b ∧ Loc.heap s i 1 = .heap b i' f' := by
+  rintro ⟨b, i', f', hb, e⟩
+  simp only [Loc.heap.injEq] at e
+  have := h.owns_lt (o := .arr a) hs
+  omega
+
+theorem elem_not_slot {st : State} (h : SInv st) {a s : Nat} (hs : (st.arrs a).store = some s) (i : Nat)
+    {c0 : Var} {it' : Item} (hi' : it' ∈ (st.nodes c0).items ++ (st.nodes c0).free) (f' : Nat) :
+    Loc.heap s i 1 ≠ it'.loc f' := by
+  intro e
+  simp only [Item.loc, Loc.heap.injEq] at e
+  exact h.slot_not_arr hi' hs e.1.symm
+
+theorem elem_notArrSet {st : State} (h : SInv st) {a s : Nat} (hs : (st.arrs a).store = some s) (i : Nat)
+    (a0 : Nat) (hne : a ≠ a0) : ¬ ArrSet st a0 (.heap s i 1) := by
+  rintro (⟨s', i', f', hs', e⟩ | hfresh)
+  · simp only [Loc.heap.injEq] at e
+    have := h.own_unique (.arr a) (.arr a0) s hs (by rw [e.1]; exact hs')
+    cases this; exact hne rfl
+  · exact elem_not_fresh h hs i hfresh
+
+theorem frame_arr_sets {st : State} (h : SInv st) (m : Micro) {a s : Nat} (hs : (st.arrs a).store = some s)
+    (i : Nat) (ha : a ∉ m.arrTargets) : ¬ cdSet st m (.heap s i 1) ∧ ¬ asSet st m (.heap s i 1) := by
+  have hF : ∀ c0, ¬ FreeOrFresh st c0 (.heap s i 1) := by
+    rintro c0 (⟨it', f', hfree, e⟩ | hfresh)
+    · exact elem_not_slot h hs i (List.mem_append_right _ hfree) f' e
+    · exact elem_not_fresh h hs i hfresh
+  have hV : ∀ c0, ¬ ValOf st c0 (.heap s i 1) := by
+    rintro c0 ⟨it', hi', e⟩
+    exact elem_not_slot h hs i (List.mem_append_left _ hi') 1 e
+  have hR : ∀ m' c0, ¬ Removed st m' c0 (.heap s i 1) := by
+    rintro m' c0 ⟨it', f', hi', _, e⟩
+    exact elem_not_slot h hs i (List.mem_append_left _ hi') f' e
+  have hS : ∀ c0, ¬ SentOf c0 (.heap s i 1) := by
+    rintro c0 ⟨f', e⟩; cases e
+  have hA : ∀ a0, a ≠ a0 → ¬ ArrSet st a0 (.heap s i 1) := fun a0 hne => elem_notArrSet h hs i a0 hne
+  cases m with
+  | put c0 pos k v => exact ⟨hF c0, hV c0⟩
+  | assignVal c0 j src => exact ⟨id, hV c0⟩
+  | remove c0 j => exact ⟨hR _ c0, id⟩
+  | removeKey c0 k => exact ⟨hR _ c0, id⟩
+  | removeVal c0 v => exact ⟨hR _ c0, id⟩
+  | clear c0 => exact ⟨hR _ c0, id⟩
+  | destroy c0 => exact ⟨fun h1 => h1.elim (hR _ c0) (hS c0), id⟩
+  | create c0 => exact ⟨hS c0, id⟩
+  | swap c0 d0 => exact ⟨id, id⟩
+  | aReserve a0 n => exact ⟨hA a0 (fun e => ha (by simp [Micro.arrTargets, e])), id⟩
+  | aPush a0 src => exact ⟨hA a0 (fun e => ha (by simp [Micro.arrTargets, e])), id⟩
+  | aTruncate a0 n => exact ⟨hA a0 (fun e => ha (by simp [Micro.arrTargets, e])), id⟩
+  | aAssign a0 j src => exact ⟨hA a0 (fun e => ha (by simp [Micro.arrTargets, e])), id⟩
+  | aRemove a0 j => exact ⟨hA a0 (fun e => ha (by simp [Micro.arrTargets, e])), id⟩
+  | aDestroy a0 => exact ⟨hA a0 (fun e => ha (by simp [Micro.arrTargets, e])), id⟩
+  | aCreate a0 cap => exact ⟨id, id⟩
+  | aSwap a0 b0 => exact ⟨id, id⟩
+
+-- the theorems ---------------------------------------------------------------------------------------------
+
+theorem exec_exec' {st st' : State} {m : Micro} (he : exec st m = some st') : exec' st m = some st' := by
+  unfold exec at he
+  by_cases hv : m.valid = true
+  · rw [if_pos hv] at he; exact he
+  · rw [if_neg hv] at he; cases he
+
+/-- C05: every element a step is not meant to remove stays an item in the same slot, no object is constructed or
+    destroyed in its slot, its key is unchanged; every member object of a removed element is destroyed -/
+theorem exec_stable {st st' : State} (h : SInv st) (m : Micro) (he : exec st m = some st') :
+    ∃ evs, st'.log = st.log ++ evs ∧
+      ∀ c it, it ∈ (st.nodes c).items →
+        (¬ m.removes st c it ∧ Kept st st' evs it c (m.moves c)) ∨ (m.removes st c it ∧ Destroyed evs it c) := by
+  obtain ⟨evs, s⟩ := exec_sum m (exec_exec' he)
+  refine ⟨evs, s.eff.1, ?_⟩
+  intro c it hi
+  by_cases hr : m.removes st c it
+  · exact Or.inr ⟨hr, s.destroyed c it hi hr⟩
+  · obtain ⟨h1, h2⟩ := s.items h c it hi hr
+    refine Or.inl ⟨hr, h1, h2, ?_, ?_⟩
+    · intro e he' hrec
+      obtain ⟨f, hf⟩ := cdAt_of_recycles hrec
+      exact sep_cd h m hi hr f (s.eff.2.1 e he' _ hf)
+    · exact s.eff.2.2 _ (sep_cd h m hi hr 0) (sep_as_key m it)
+
+/-- a step changes neither the node variables it does not name nor the objects of their items -/
+theorem exec_frame_node {st st' : State} (h : SInv st) (m : Micro) (he : exec st m = some st') (c : Var)
+    (hc : c ∉ m.nodeTargets) :
+    st'.nodes c = st.nodes c ∧ ∀ it f, it ∈ (st.nodes c).items → st'.mem (it.loc f) = st.mem (it.loc f) := by
+  obtain ⟨evs, s⟩ := exec_sum m (exec_exec' he)
+  refine ⟨s.fnode c hc, ?_⟩
+  intro it f hi
+  exact s.eff.2.2 _ (sep_cd h m hi (fun hr => hc (removes_target hr)) f) (frame_as h m hi hc f)
+
+/-- a step changes neither the array variables it does not name nor their elements -/
+theorem exec_frame_arr {st st' : State} (h : SInv st) (m : Micro) (he : exec st m = some st') (a : Nat)
+    (ha : a ∉ m.arrTargets) :
+    st'.arrs a = st.arrs a ∧
+      ∀ s i, (st.arrs a).store = some s → i < (st.arrs a).size → st'.mem (.heap s i 1) = st.mem (.heap s i 1) := by
+  obtain ⟨evs, s⟩ := exec_sum m (exec_exec' he)
+  refine ⟨s.farr a ha, ?_⟩
+  intro s' i hs _
+  obtain ⟨h1, h2⟩ := frame_arr_sets h m hs i ha
+  exact s.eff.2.2 _ h1 h2
+
+/-- the steps of the pool containers construct the value objects in place and never assign -/
+theorem exec_pool {st st' : State} (m : Micro) (hp : m.poolForm = true) (he : exec st m = some st') :
+    ∃ evs, st'.log = st.log ++ evs ∧ ∀ e, e ∈ evs → ¬ e.copiesElement := by
+  obtain ⟨evs, s⟩ := exec_sum m (exec_exec' he)
+  exact ⟨evs, s.eff.1, s.nocopy hp⟩
+
 end Nstd.Life.Stable
